@@ -22,7 +22,7 @@ func init() {
 		ID:    "C12",
 		Title: "Never panics; fails atomically with a typed error",
 		Rule: "well-typed, funded base scripts covering every construct and variables of all six types, with at most D deviations in total among: (i) replacing any expression position by a literal of any type / an undeclared variable / the portion 1/0, any allotment position by 1/0 or a wrongly typed or undeclared variable; (ii) dropping or retyping a declaration, changing a call's arity, unknown or misplaced function; (iii) any variable given a value from its per-type alphabet of malformed / negative / huge / wrongly-assetted strings, or left missing; (iv) poor / negative / huge balance sheets, missing or ill-typed metadata; and, for EVERY such execution with N store calls, N more executions with the store failing at call k = 1..N; " +
-			"oracle: no panic; error => zero result; with <= 1 deviation the error's type is the one the reference semantics derives from that deviation (success is tolerated only for an ill-typed expression in a destination position the interpreter need not evaluate); a fault at call k => an error whose message contains store-fault-k and a zero result; " +
+			"oracle: no panic; error => zero result; with <= 1 deviation the error's type is the one the reference semantics derives from that deviation (every expression of the script is evaluated, also in a destination clause that receives nothing); a fault at call k => an error whose message contains store-fault-k and a zero result; " +
 			"non-trivial = the execution ended in an error or made >= 1 store call; distinct = script text + inputs + fault index",
 		Assumptions: []string{"only scripts that parse without errors are in scope; edited scripts that do not parse are counted and skipped", "with 2 deviations only no-panic / atomicity / fault clauses are judged (two causes may be reported in either order)"},
 		QuickBudget: 240 * time.Second,
@@ -129,7 +129,9 @@ func c12Bases() []c12Base {
 var c12Values = map[string][]string{
 	"monetary": {"", "USD", "USD 10 20", "USD x", "USD -5", "EUR 4", "USD 18446744073709551617", " USD 4", "USD  4", "USD 4.5", "USD 18446744073709551616", "USD 9223372036854775808", "US\"D 10", "EU\\R 10", "A\\u0042 10", "USD 010", "USD 0x10", "USD 1_0", "USD +4"},
 	"account":  {"", "world", "a:b", "@a", "<kept>", "a b", "zz", "a:b^c", "a:b`c", "a:[b]", "a:b\\c", "a^b"},
-	"portion":  {"", "1/0", "0/0", "150%", "3/2", "-1/2", "abc", "50%", "0.5", "1/2/3", "18446744073709551617/36893488147419103234", "0%", "100%", "1 / 3"},
+	"portion":  {"", "1/0", "0/0", "150%", "3/2", "-1/2", "abc", "50%", "0.5", "1/2/3", "18446744073709551617/36893488147419103234", "0%", "100%", "1 / 3",
+		// every number of fractional digits around the places where 10^(2+q) leaves a machine word
+		"50.0000000%", "50.00000000%", "50.0000000000000000%", "50.00000000000000000%", "50.000000000000000000%", "50.0000000000000000000%", "12.345678901234567890123%", "5000000000000000000/10000000000000000000"},
 	"number":   {"", "abc", "-3", "18446744073709551617", "1.5", "0x10", "1_000", "+7", "0", "9223372036854775808", "18446744073709551615", "18446744073709551616", "-9223372036854775809"},
 	"string":   {"", "héllo \"q\"", "k k", "15% of gross", "100%d %s %v", "a\\nb"},
 	"asset":    {"", "usd", "EUR", "A\"B", "A\\"},
@@ -390,7 +392,11 @@ func runC12(w *mc.Worker) {
 					case model.Err == "" && out.Err != nil:
 						w.Violation("C12.wrong-cause:"+out.ErrType, "nothing is wrong with the script and its inputs, yet execution failed: "+out.Err.Error(), size, mk(out, 0))
 					case model.Err != "" && out.Err == nil:
-						lazy := nEdits == 1 && inDstOnly && (model.Err == ref.ETypeError || model.Err == ref.EUnboundVariable || model.Err == ref.EMismatchedCurrency || model.Err == ref.EBadPortion)
+						// (until fix 24 a destination clause that received nothing was not visited, and an
+						// ill-typed expression there could legitimately go unreported; since then every
+						// clause is visited and every cap evaluated, so nothing is tolerated any more)
+						lazy := false
+						_ = inDstOnly
 						if !lazy {
 							w.Violation("C12.error-swallowed:"+model.Err, "expected failure "+model.Err+", but execution succeeded with "+postingsStr(out.Postings), size, mk(out, 0))
 						} else {
